@@ -103,6 +103,8 @@ def run(repo, rep):
     rule_optional_quantization(repo, rep)
     rep.clause("C13-aw", "the graph walkers and debug printers of nn_graph dereference the elements of an operator's input list (None for an absent optional operand) only under a None/truth test")
     rule_input_holes(repo, rep)
+    rep.clause("C13-bd", "the saturating stand-in of the table generators keeps their arithmetic finite: the clamp bounds of finite_lut_value are literals of magnitude 1e30..1e200")
+    rule_saturating_stand_in(repo, rep)
     rep.clause("C13-ax", "an operator that the optimisation driver itself creates from a subgraph's tensors (not from an operator that passed the checks) is submitted to the supported-operator check before the driver returns")
     rule_driver_created_operators(repo, rep)
     rep.clause("C13-ay", "STRIDED_SLICE begin / end positions end up inside [0, dim] whatever the operand holds (the offsets become read windows unchecked)")
@@ -2543,13 +2545,27 @@ def rule_input_holes(repo, rep):
                 a0 = i.args.args[0].arg
                 if re.search(rf"\b{a0} is None\b|\bnot {a0}\b", " ".join(str(norm(x)) for x in i.body[:1])):
                     tolerant.add(i.name)
+        # names that stand for `op.inputs`: bound by `for <label>, <c> in ((.., op.inputs), (.., op.outputs))`
+        carriers = set()
         for node in ast.walk(fn):
-            if not (isinstance(node, ast.For) and isinstance(node.target, ast.Name)):
+            if isinstance(node, ast.For) and isinstance(node.target, ast.Tuple) and isinstance(node.iter, (ast.Tuple, ast.List)):
+                for row in node.iter.elts:
+                    if isinstance(row, (ast.Tuple, ast.List)) and len(row.elts) == len(node.target.elts):
+                        for tv, e in zip(node.target.elts, row.elts):
+                            if isinstance(tv, ast.Name) and re.search(r"\bop\.inputs$", str(norm(e))):
+                                carriers.add(tv.id)
+        for node in ast.walk(fn):
+            if not isinstance(node, ast.For):
                 continue
-            t = str(norm(node.iter))
-            if not re.search(r"\bop\.inputs$", t):
+            it, tgt = node.iter, node.target
+            if isinstance(it, ast.Call) and call_name(it) == "enumerate" and it.args and isinstance(tgt, ast.Tuple) and len(tgt.elts) == 2:
+                it, tgt = it.args[0], tgt.elts[1]
+            if not isinstance(tgt, ast.Name):
                 continue
-            v = node.target.id
+            t = str(norm(it))
+            if not (re.search(r"\bop\.inputs$", t) or (isinstance(it, ast.Name) and it.id in carriers)):
+                continue
+            v = tgt.id
             n += 1
             deref = [x for b in node.body for x in ast.walk(b) if isinstance(x, ast.Attribute) and isinstance(x.value, ast.Name) and x.value.id == v]
             txt = " ".join(str(norm(b)) for b in node.body)
@@ -2563,6 +2579,29 @@ def rule_input_holes(repo, rep):
                 rep.ok("C13-aw", site, f"`for {v} in {t}`", "dereferences are under a None/truth test" if deref else "the element is only passed on")
     if n < 3:
         raise AnalysisError(f"nn_graph: only {n} loops over op.inputs")
+
+
+def rule_saturating_stand_in(repo, rep):
+    """(bd) finite_lut_value replaces an overflowing table entry by a large finite stand-in. The int16 table generator multiplies the value
+    by the output scaling (65536 / output range) and subtracts two such products: the stand-in must be a literal whose product with any
+    scaling below 1e100 is still finite (|c| <= 1e200), otherwise inf - inf = nan reaches int() (ValueError during graph optimisation)."""
+    fn = repo.mod("lut").func("finite_lut_value")
+    site = "ethosu/vela/lut.py:finite_lut_value"
+    rets = [s_ for s_ in ast.walk(fn) if isinstance(s_, ast.Return)]
+    consts = []
+    for r in rets:
+        for c in ast.walk(r):
+            if isinstance(c, ast.Call) and call_name(c) in ("min", "max"):
+                for a in c.args:
+                    if not (isinstance(a, ast.Call) or (isinstance(a, ast.Name))):
+                        consts.append(a)
+    if len(consts) < 2:
+        raise AnalysisError(f"finite_lut_value: {len(consts)} clamp bounds found")
+    for a in consts:
+        v = try_fold(a, default=None)
+        ok = isinstance(v, (int, float)) and 1e30 <= abs(v) <= 1e200
+        rep.check(ok, "C13-bd", site, f"clamp bound `{str(norm(a))}` is a literal with 1e30 <= |c| <= 1e200",
+                  f"folds to {v!r}: the product with the int16 output scaling overflows to inf, inf - inf is nan and int(nan) aborts the compilation (int16 EXP with an input range beyond 709)")
 
 
 def rule_driver_created_operators(repo, rep):
